@@ -8,6 +8,8 @@ CONSTANTS
   Vals = "small"
   Perturb = {"none", "info", "psk", "pskid", "mode", "kdf", "aead", "skr", "enc", "pks", "shift"}
   Impost = FALSE
+  Shape = "all"
+  Emit = FALSE
   Ordered = TRUE
   SetupSMenu <- MC_SetupSMenu
   SetupRMenu <- MC_SetupRMenu
@@ -18,8 +20,8 @@ CONSTANTS
   FormMenu = {"alloc"}
   DeliveryMenu <- MC_DeliveryMenu
   ExportMenu <- MC_ExportMenu
-  ShotSMenu <- NoMenu
-  ShotRMenu <- NoMenu
+  ShotSMenu <- MC_ShotSMenu
+  ShotRMenu <- MC_ShotRMenu
   MaxSeals = 0
   MaxOpens = 0
   MaxExports = 0
@@ -31,5 +33,5 @@ CONSTANTS
 INVARIANTS
   Binding AuthSound PskSound
 VIEW CoreView
-ACTION_CONSTRAINT InOrder CheckLast
+ACTION_CONSTRAINT InOrder CheckLast EmitTr
 CHECK_DEADLOCK FALSE
